@@ -46,4 +46,18 @@ theorem generated_tod_is_model (c : TodCond) (prev cur : Int) :
         simp [run, execBlock, execStmt, Expr.eval, Env.set, todEnv, b2i, evalTod, TodCond.last, todEvaluate, hday, hA, hB, hC, hD, hE] <;>
         (try grind)
 
+/-! ### the constructor: what period a `repeat` argument gives -/
+
+/-- **a numeric `repeat` gives exactly that period whatever its Python type** (int, float, numpy integer / float) -/
+theorem repeat_number_gives_period (r : Int) (k : NumKind) : normRepeat simTimeRepeatInit (.num r k) = r := by
+  cases k <;> simp [normRepeat, simTimeRepeatInit, RepStmt.run, RepeatArg.value]
+
+/-- `repeat=True` is once per 24 h; `False` and `None` mean no repeat -/
+theorem repeat_true_is_daily : normRepeat simTimeRepeatInit .pyTrue = 86400 := by decide
+theorem repeat_false_is_none : normRepeat simTimeRepeatInit .pyFalse = 0 ∧ normRepeat simTimeRepeatInit .pyNone = 0 := by decide
+
+/-- both constructors read the threshold the same way (decimal-hours string, else `_parse_value`) -/
+theorem threshold_init_shape : simTimeThresholdInit = .hoursStringTimes3600ElseParseValue ∧
+    todThresholdInit = .hoursStringTimes3600ElseParseValue := by decide
+
 end Wntr.TimeProg
